@@ -61,6 +61,10 @@ type ledgerMon struct {
 	mintHex, burnHex, oldBurnHex string
 	devs   map[string]uint64
 	seenDisc map[string]bool
+	// the implementation's own rolling averages after the block (read from the node), and the
+	// height they were computed for
+	avgs       map[fat2.PTicker]uint64
+	avgsHeight uint32
 }
 
 func (m *ledgerMon) violate(sig, what string, h uint32) {
@@ -104,6 +108,37 @@ func (m *ledgerMon) check(h uint32, b *BlockSpec, prevDump, dump []string, prevW
 	// C03
 	if neg := L.Negative(); neg != "" {
 		m.violate("nonneg:negative-balance", neg, h)
+	}
+	// C11: before 2.0 exactly the factoid transactions of burn shape are recorded (and, by the
+	// history replay below, credited) as burns, for the burned amount, to the burning address;
+	// from 2.0 on nothing in a factoid block is
+	if applied && b != nil {
+		var wantBurns, gotBurns []string
+		if h < a.V20 {
+			for _, t := range b.FCT {
+				if IsBurn(t) && t.TransactionID != nil {
+					wantBurns = append(wantBurns, fmt.Sprintf("%x|%x|%d", t.TransactionID[:], t.FCTInputs[0].Address[:], t.FCTInputs[0].Amount))
+				}
+			}
+		}
+		for _, bb := range L.B {
+			if bb.height != int64(h) {
+				continue
+			}
+			for _, t := range L.T[bb.hash] {
+				if t.action == 4 {
+					gotBurns = append(gotBurns, fmt.Sprintf("%s|%s|%d", bb.hash, t.from, t.toAmount))
+				}
+			}
+		}
+		sort.Strings(wantBurns)
+		sort.Strings(gotBurns)
+		if fmt.Sprint(wantBurns) != fmt.Sprint(gotBurns) {
+			m.violate("rewards:burn", fmt.Sprintf("burns recorded %v, factoid transactions of burn shape in the block %v", gotBurns, wantBurns), h)
+		}
+		if len(b.FCT) > 0 {
+			m.rep.Count(fmt.Sprintf("fct:txs-with-burns=%d", len(wantBurns)))
+		}
 	}
 	// C04 / C17: history + scheduled adjustments replay to the balances
 	want := L.ReplayHistory(a, m.adjust)
@@ -169,6 +204,18 @@ func (m *ledgerMon) check(h uint32, b *BlockSpec, prevDump, dump []string, prevW
 			// same quirk
 		} else if !sameRewards(got, exp) {
 			m.violate("rewards:spr:"+eraOf(a, h), fmt.Sprintf("SPR coinbase rows %d, independent grading expects %d winners", len(got), len(exp)), h)
+		}
+	}
+	// C12: a block without winners (by the independent grading runs above) records no rates
+	{
+		ow, errO := ExpectedOPRRewards(a, b, prevWinners)
+		sw, errS := ExpectedSPRRewards(a, b, top)
+		if errO == nil && errS == nil {
+			winners := len(ow) > 0 || (h >= a.V20 && len(sw) > 0)
+			if !winners && len(L.Rates[int64(h)]) > 0 {
+				m.violate("rates:recorded-without-winners:"+eraOf(a, h), fmt.Sprintf("%d rate rows recorded although neither record set has winners (%d OPR / %d SPR entries in the block)", len(L.Rates[int64(h)]), len(b.OPR), len(b.SPR)), h)
+			}
+			m.rep.Count(fmt.Sprintf("rates:winners=%v,recorded=%v", winners, len(L.Rates[int64(h)]) > 0))
 		}
 	}
 	// C15: developer payouts
@@ -302,6 +349,82 @@ func (m *ledgerMon) check(h uint32, b *BlockSpec, prevDump, dump []string, prevW
 	} else if len(paid) > 0 && h != a.DevRewards {
 		// (at the developer-reward activation the burn-address zeroing records rows under the same mock txid)
 		m.violate("staking:offschedule", "staking payout at a height that is not a snapshot height", h)
+	}
+	// C04 / C03: an executed transfer credits exactly what it debits (no uint64 wrap-around)
+	for _, bb := range L.B {
+		if bb.exec != int64(h) {
+			continue
+		}
+		for _, t := range L.T[bb.hash] {
+			if t.action != 1 {
+				continue
+			}
+			sum := new(big.Int)
+			for _, o := range t.outputs {
+				v, _ := new(big.Int).SetString(o[1], 10)
+				if v != nil {
+					sum.Add(sum, v)
+				}
+			}
+			if sum.Cmp(big.NewInt(t.fromAmount)) != 0 {
+				m.violate("transfer:outputs-differ-from-input", fmt.Sprintf("transfer %s/%d executed: input %d, outputs total %v", bb.hash, t.idx, t.fromAmount, sum), h)
+			}
+		}
+	}
+	// C07 / C12: conversions execute only in a block that recorded rates of its own
+	if len(L.Rates[int64(h)]) == 0 {
+		for _, bb := range L.B {
+			if bb.exec != int64(h) {
+				continue
+			}
+			for _, t := range L.T[bb.hash] {
+				if t.action == 2 {
+					m.violate("conversion:executed-without-rates", fmt.Sprintf("conversion %s (submitted at %d) executed at height %d, which recorded no rates", bb.hash, bb.height, h), h)
+				}
+			}
+		}
+	}
+	// C07 / C04: once averaging is active the amount credited is floor(in * min(spot, average) /
+	// max(spot, average)); the averages are the implementation's own (its cache right after the
+	// block, computed for the last rated height before this one)
+	if rates := L.Rates[int64(h)]; h >= a.PIP10 && len(rates) > 0 && m.avgs != nil {
+		var fromH int64 = -1
+		for rh := range L.Rates {
+			if rh < int64(h) && rh > fromH {
+				fromH = rh
+			}
+		}
+		if fromH >= 0 && int64(m.avgsHeight) == fromH {
+			for _, bb := range L.B {
+				if bb.exec != int64(h) {
+					continue
+				}
+				for _, t := range L.T[bb.hash] {
+					if t.action != 2 {
+						continue
+					}
+					fr, tr := rates[t.fromAsset], rates[t.toAsset]
+					fa, ta := m.avgs[fat2.StringToTicker(t.fromAsset)], m.avgs[fat2.StringToTicker(t.toAsset)]
+					if fr == 0 || tr == 0 || fa == 0 || ta == 0 {
+						m.violate("conversion:zero-rate-executed", fmt.Sprintf("conversion %s executed with a zero rate or average", bb.hash), h)
+						continue
+					}
+					src, dst := fr, tr
+					if fa < src {
+						src = fa
+					}
+					if ta > dst {
+						dst = ta
+					}
+					x := new(big.Int).Mul(big.NewInt(t.fromAmount), new(big.Int).SetUint64(src))
+					x.Div(x, new(big.Int).SetUint64(dst))
+					m.rep.Count("conversion:pip10-amount-checked")
+					if x.Cmp(big.NewInt(t.toAmount)) != 0 {
+						m.violate("conversion:amount:pip10", fmt.Sprintf("conversion %s credited %d, floor(%d*min(%d,%d)/max(%d,%d)) = %v", bb.hash, t.toAmount, t.fromAmount, fr, fa, tr, ta, x), h)
+					}
+				}
+			}
+		}
 	}
 	// C07: converted amounts of conversions executed in this block, before averaging
 	if h < a.PIP10 {
@@ -625,6 +748,24 @@ func runLedgerChainWith(rep *Report, seed int64, variant int, tier string, acts 
 				}
 			}
 		}
+		// an UNGRADED snapshot block in the 2.0.2 era with a conversion waiting in holding: the
+		// staking payout borrows the most recent earlier rates, the held conversion must not
+		if (h+1)%pegnet.SnapshotRate == 0 && h+1 >= s.Acts.V202 && variant%2 == 1 {
+			for _, u := range g.Users {
+				if u.IsE && h < s.Acts.RCDE {
+					continue
+				}
+				if bal := w.Balance(u.FA(), fat2.PTickerUSD); bal > 1000 {
+					b.TX = append(b.TX, g.Batch(h, u, []fat2.Transaction{Conversion(u.FA(), fat2.PTickerUSD, bal/7, fat2.PTickerEUR)}))
+					rep.Count("ledger:conversion-pending-at-ungraded-snapshot")
+					break
+				}
+			}
+		}
+		if h%pegnet.SnapshotRate == 0 && h >= s.Acts.V202 && variant%2 == 1 {
+			b.OPR, b.SPR = nil, nil
+			rep.Count("ledger:ungraded-snapshot-block")
+		}
 		if h == s.Acts.Pegnet+2 && variant%2 == 1 {
 			// two holders with equal, very large stakes: the staking total exceeds the cap and the
 			// rounding dust has to be assigned among exactly tied top stakers
@@ -645,6 +786,14 @@ func runLedgerChainWith(rep *Report, seed int64, variant int, tier string, acts 
 			// implementation alone and the monitors keep evaluating its dumps
 			run.NoModel = true
 			rep.Count("continued-without-model")
+		}
+		mon.avgs = nil
+		if res.ImplOK && h >= s.Acts.PIP10 {
+			mon.avgs = map[fat2.PTicker]uint64{}
+			for k, v := range run.D.N.LastAverages {
+				mon.avgs[k] = v
+			}
+			mon.avgsHeight = run.D.N.LastAveragesHeight
 		}
 		mon.check(h, b, prevDump, res.Dump, prevWinners, top, res.ImplOK)
 		if !res.ImplOK {
